@@ -411,11 +411,27 @@ PROPS['C01'] = {
     ],
 }
 
+SELF_DRV = {'file': 'native/self_connect.rs', 'attach': 'src/crypto/init.rs', 'test': 'a_node_recognises_itself_under_any_salt'}
+PROPS['C14'] = {
+    'level': 'proof',
+    'level_text': 'PARTIAL - only the SAFETY half ("a node never ends up with itself as a peer ... addresses that peers list under the node\'s own identity are adopted as its own and not dialled"), as contracts on the real code (Verus): InitState::new advertises salt || SHA-256(salt || node id)[..16] (block), InitState::check_salted_node_id_hash answers exactly "is this the salted hash of my node id", and the theorem that every handshake object of a node recognises the hash of every other handshake object of the same node, whatever salts they drew - so a node that reaches itself through an address it does not know to be its own refuses the handshake; the equal-hash disjunct of the "Connected to self" test (Kani block); GenericCloud::connect_sock never dials an address the node knows to be its own (nor a peer, nor one with a pending handshake); the statements of connect_to_peers that adopt the addresses listed under the own node id (block). SHA-256 is an uninterpreted function. NOT decided: the whole first sentence of the property (a connected bootstrap graph becomes a full mesh within a bounded number of exchange intervals, NAT traversal) - liveness over multi-node histories; the call sites in InitState::handle_init and connect_to_peers (labelled loops, HashMap iteration) are read, not proved.',
+    'verus': [{'unit': 'codec', 'rlimit': 100, 'fns': ['salted_hash_block', 'InitState::check_salted_node_id_hash', 'theorem_node_recognises_itself', 'canary_.*']},
+              {'unit': 'peers', 'fns': ['GenericCloud::connect_sock', 'GenericCloud::adopt_own_addresses_block', 'canary_.*']}],
+    'kani': {
+        'files': {'src/crypto/init.rs': ['kani/initblocks.rs.in']},
+        'harnesses': [K(IB, 'nonce_halves_are_opposite', 'the "Connected to self" test of handle_init fires whenever the received salted hash equals the own one (first disjunct; the second disjunct is InitState::check_salted_node_id_hash, proved in unit codec)', fns=['crypto::init::InitState::handle_init (block: self test)'])],
+    },
+    'native_search': {r'codec::(InitState::check_salted_node_id_hash|salted_hash_block|theorem_node_recognises_itself)': SELF_DRV},
+    'trusted': CODEC_TRUSTED + PEERS_TRUSTED + ['SHA-256 (ring::digest) as an uninterpreted function with 32-byte results; R5 pinned statements: `digest::digest(&digest::SHA256, &x)`, `rng.fill(&mut hash[0..4]).unwrap()`, the slice comparison in check_salted_node_id_hash'],
+    'not_decided': [
+        'liveness: full mesh from any connected bootstrap graph within a bounded number of peer-exchange intervals, including NAT cases',
+        'that InitState::handle_init calls the test before anything else happens to the handshake object, and that connect_to_peers skips the entry after adopting its addresses (`continue \'outer`): reading',
+        'own-address learning through other paths (reset_own_addresses, port forwarding)',
+    ],
+}
+
 NOT_APPLICABLE = {
     'C05': 'all-schedules agreement and recovery of two retransmitting state machines plus a liveness bound: a protocol-level joint invariant and liveness, outside per-function contracts',
     'C07': 'invariant over the product of two RotationStates, eight key slots and in-flight messages with key identity defined through ECDH; liveness clause; not decidable by per-function contracts within reach',
     'C09': 'whole-history property of 2-3 nodes over hundreds of seconds; no function-level contract expresses it without being stronger than the property',
-    'C14': 'convergence of N nodes is liveness over multi-node histories; the safety half lives in handle_init/connect (out of reach of both back ends)',
-    'C15': 'pending',
-    'C19': 'pending',
 }
